@@ -329,6 +329,88 @@ def scan_latex_output(text):
         problems.append("unbalanced align environments")
     if nalign == 0:
         problems.append("no align environment")
+    if not problems:
+        problems += tex_lexical_problems(body)
+    return problems
+
+
+def tex_lexical_problems(body):
+    """What TeX itself would stumble on, by its lexical rules: '%' starts a
+    comment (and so can swallow a closing brace), braces must balance,
+    '#' '&' '^' '_' are special outside verbatim material (and outside math
+    / alignments for the last three), '\\verb' ends on its line, a
+    paragraph cannot end inside the argument of \\title."""
+    problems = []
+    i, n = 0, len(body)
+    depth = 0
+    math = False            # inside an align environment or $...$
+    dollar = False
+    title_depth = None
+    while i < n and len(problems) < 5:
+        if body.startswith("\\begin{lstlisting}", i):
+            j = body.find("\\end{lstlisting}", i)
+            if j == -1:
+                problems.append("lstlisting not closed")
+                break
+            i = j + len("\\end{lstlisting}")
+            continue
+        if body.startswith("\\verb", i) and i + 5 < n and \
+                not body[i + 5].isalpha():
+            d = body[i + 5]
+            j = body.find(d, i + 6)
+            nl = body.find("\n", i + 6)
+            if j == -1 or (nl != -1 and nl < j):
+                problems.append("\\verb not closed on its line")
+                break
+            i = j + 1
+            continue
+        if body.startswith("\\begin{align}", i):
+            math = True
+            i += len("\\begin{align}")
+            continue
+        if body.startswith("\\end{align}", i):
+            math = False
+            i += len("\\end{align}")
+            continue
+        if body.startswith("\\title{", i):
+            title_depth = depth
+            depth += 1
+            i += len("\\title{")
+            continue
+        c = body[i]
+        if c == "\\":
+            i += 2              # an escaped character / a control sequence
+            continue
+        if c == "%":
+            j = body.find("\n", i)
+            i = n if j == -1 else j + 1
+            continue
+        if c == "{":
+            depth += 1
+        elif c == "}":
+            depth -= 1
+            if depth < 0:
+                problems.append("closing brace without an opening one")
+                break
+            if title_depth is not None and depth == title_depth:
+                title_depth = None
+        elif c == "$":
+            dollar = not dollar
+        elif c == "#":
+            problems.append("unescaped '#'")
+        elif c == "&" and not math:
+            problems.append("unescaped '&' outside an alignment")
+        elif c in "^_" and not (math or dollar):
+            problems.append("unescaped %r outside math" % c)
+        elif c == "\n" and title_depth is not None and \
+                body[i + 1:i + 2] == "\n":
+            problems.append("paragraph ends inside the title")
+        i += 1
+    if not problems:
+        if depth != 0:
+            problems.append("unbalanced braces (%+d at the end)" % depth)
+        if dollar:
+            problems.append("unbalanced $")
     return problems
 
 
